@@ -190,3 +190,61 @@ func After(d time.Duration) <-chan time.Time {
 	w.addTimer(d, func() { trySend(cs, Now()) })
 	return ch
 }
+
+// Timer mirrors *time.Timer on the simulated clock.
+type Timer struct {
+	C  <-chan time.Time
+	c  chan time.Time
+	tm *timer
+	f  func()
+}
+
+func (w *World) startTimer(t *Timer, d time.Duration) {
+	t.tm = w.addTimer(d, func() {
+		if t.f != nil {
+			f := t.f
+			// the function runs as its own task, like the goroutine time.AfterFunc starts
+			nt := w.newTask(w.main)
+			go w.taskBody(nt, f)
+			return
+		}
+		trySend(chanOf(t.c, chanPtr(t.c)), Now())
+	})
+}
+
+// NewTimer mirrors time.NewTimer.
+func NewTimer(d time.Duration) *Timer {
+	c := make(chan time.Time, 1)
+	t := &Timer{C: c, c: c}
+	if W != nil {
+		W.startTimer(t, d)
+	}
+	return t
+}
+
+// AfterFunc mirrors time.AfterFunc.
+func AfterFunc(d time.Duration, f func()) *Timer {
+	t := &Timer{f: f}
+	if W != nil {
+		W.startTimer(t, d)
+	}
+	return t
+}
+
+// Stop mirrors (*time.Timer).Stop.
+func (t *Timer) Stop() bool {
+	if t.tm == nil || t.tm.dead {
+		return false
+	}
+	t.tm.dead = true
+	return true
+}
+
+// Reset mirrors (*time.Timer).Reset.
+func (t *Timer) Reset(d time.Duration) bool {
+	active := t.Stop()
+	if W != nil {
+		W.startTimer(t, d)
+	}
+	return active
+}
